@@ -5,6 +5,10 @@ CONSTANTS
   TFmts = {"default", "python", "yaml", "toml", "bad"}
   Indents = {"default", "0"}
   TxtIds = {"qstr1", "qstr2", "blit", "bboth", "bare", "baresx", "bbad", "bname", "texpo", "texpb", "advb", "advq", "advo"}
+  Argvs = {"ok", "badindent", "toomany", "unknownflag"}
+  SExts = {".txt", ".py", ".json"}
+  TExts = {".txt", ".yml"}
+  Dbgs = {"off", "debug"}
 INIT Init
 NEXT Next
 INVARIANT ExecOnlyFull
@@ -13,6 +17,7 @@ INVARIANT DefaultRoutes
 INVARIANT ResultLaw
 INVARIANT GlomErrorLaw
 INVARIANT TargetUsageLaw
+INVARIANT ArgvLaw
 INVARIANT LawStored
 INVARIANT NoStuck
 INVARIANT KnownPrefix
